@@ -125,7 +125,11 @@ def run_case(case, rec, ctx):
     rec.sample(f"{case['reaction']['kind']}:{cfg['align']}", {"reaction": R.reaction_summary(reaction), "config": C.config_key(cfg),
                                                              "n_amplitudes": len(model.amplitudes), "n_parameters": len(model.parameter_defaults),
                                                              "kinematic_variables": [str(k) for k in model.kinematic_variables][:12]})
-    if case["numeric"] and not (cfg["align"] == "axisangle" and C.axis_angle_terms(reaction) > 300):
+    too_costly = (cfg["align"] == "axisangle" and (C.axis_angle_terms(reaction) > 300 or (len(reaction.final_state) >= 4 and ctx["tier"] == "quick"))) or \
+        (cfg["align"].startswith("dpd") and len(reaction.final_state) == 3 and C.dpd_cost(reaction) > (15000 if ctx["tier"] == "quick" else 100000))
+    if too_costly:
+        rec.note("numeric_subsample_skipped:alignment_cost")
+    if case["numeric"] and not too_costly:
         judge_evaluable(rec, model, feats, rng, ctx["label"])
     # builder history: the same builder is re-configured and formulates again (twice); the post-condition judges every model,
     # so state carried from one formulate() call to the next (memoised lineshapes, registered topologies, ...) shows up here
